@@ -35,5 +35,5 @@ Environment (offline sandbox; every shell call needs this, env does not persist 
 Deliverables, all under {out}/ (create it):
   patch.diff   - output of `git -C {wt} diff` for the non-test source change ONLY (the demonstration test must not be part of it);
   demo_test.go (or demo/main.go) - the demonstration, plus in NOTES.md the exact path where it must be placed inside the tree and the exact command to run it;
-  NOTES.md     - which part of the property breaks, what exactly is needed for it to manifest, the commands you ran and their observed results: (a) suite on the changed tree, (b) demo on the changed tree (fails), (c) demo on the original tree (passes; use `git stash` or apply/revert the patch to check).
+  NOTES.md     - which part of the property breaks, what exactly is needed for it to manifest, the commands you ran and their observed results: (a) suite on the changed tree, (b) demo on the changed tree (fails), (c) demo on the original tree (passes; apply/revert the patch with `git apply -R` to check; never use `git stash`, it is shared between worktrees).
 When done, leave the worktree containing your source change (not necessarily the demo). Reply with a 5-line summary: changed file(s), what breaks, what is needed to trigger it, and confirmation of (a)(b)(c).""")
